@@ -173,7 +173,7 @@ fn snapshot_case(c: usize, reach: u64, k: usize, snap: u64, drain: u64, again: u
         0 => b.copy(k + 1),
         1 => {
             b.op("register v0 0000".into());
-            b.op("backfill v0 b0 a1b2".into());
+            b.op("must backfill v0 b0 a1b2".into());
         }
         2 => {
             let t = b.next_tag();
@@ -260,7 +260,7 @@ fn exact_fit_case(c: usize, reach: u64, light: bool) -> Vec<String> {
     b.copy(7);
     b.op("register v0 00".into());
     b.sim.alloc(1);
-    b.op("backfill v0 b0 5a".into());
+    b.op("must backfill v0 b0 5a".into());
     if !light {
         b.copy(c);
         b.copy(c + 1);
@@ -300,18 +300,18 @@ fn big_offset_case(t: usize, delta: i64, h: usize, pieces: u64, region: usize, t
     let fill: Vec<u8> = (0..h).map(|j| 0xA1u8.wrapping_add(j as u8)).collect();
     match then % 3 {
         0 => {
-            b.op(format!("backfill v0 b0 {}", to_hex(&fill)));
-            b.op("backfill v0 b1 c3c4".into());
+            b.op(format!("must backfill v0 b0 {}", to_hex(&fill)));
+            b.op("must backfill v0 b1 c3c4".into());
         }
         1 => {
-            b.op("backfill v0 b1 c3c4".into());
-            b.op(format!("backfill v0 b0 {}", to_hex(&fill)));
+            b.op("must backfill v0 b1 c3c4".into());
+            b.op(format!("must backfill v0 b0 {}", to_hex(&fill)));
         }
         _ => {
             b.op(format!("advance v0 {}", first - 3));
             b.op("clone v0".into());
-            b.op(format!("backfill v0 b0 {}", to_hex(&fill)));
-            b.op("backfill v0 b1 c3c4".into());
+            b.op(format!("must backfill v0 b0 {}", to_hex(&fill)));
+            b.op("must backfill v0 b1 c3c4".into());
         }
     }
     b.op(format!("advance v0 {}", first.saturating_sub(8)));
@@ -365,7 +365,7 @@ fn many_slices_case(n: usize, build: u64, len: usize, variant: u64, quiet: bool)
             ops.push("register v0 0000".into());
             ops.push(format!("push_borrowed v0 {}", run_token(0x77, len)));
             ops.push("consume v0 3".into());
-            ops.push("backfill v0 b0 a5a6".into());
+            ops.push("must backfill v0 b0 a5a6".into());
             ops.push(format!("consume v0 {}", MAXU));
         }
         _ => {
@@ -379,7 +379,12 @@ fn many_slices_case(n: usize, build: u64, len: usize, variant: u64, quiet: bool)
 
 /// (7) `n` placeholders in flight, each in its own slice; filled in reverse / forward order.
 fn many_backrefs_case(n: usize, reverse: bool, separate: bool) -> Vec<String> {
-    let mut ops: Vec<String> = vec!["terse".into(), "new".into()];
+    let mut ops: Vec<String> = vec!["terse".into()];
+    if n > 1100 && separate {
+        // n placeholders in n slices: the list model needs minutes (cubic); harness only
+        ops.push("quiet".into());
+    }
+    ops.push("new".into());
     if separate {
         ops.push(format!("rep {} push_borrowed v0 {} ; register v0 00", n, run_token(0x11, 70)));
     } else {
@@ -387,7 +392,7 @@ fn many_backrefs_case(n: usize, reverse: bool, separate: bool) -> Vec<String> {
     }
     ops.push("push_copy v0 ee".into());
     ops.push("read v0 10".into());
-    ops.push(format!("rep {} backfill v0 b{{{}}} {}", n, if reverse { "r" } else { "i" }, run_token(0xa0, 1)));
+    ops.push(format!("rep {} must backfill v0 b{{{}}} {}", n, if reverse { "r" } else { "i" }, run_token(0xa0, 1)));
     ops.push("read v0 200".into());
     ops.push(format!("consume v0 {}", MAXU));
     ops
@@ -395,7 +400,12 @@ fn many_backrefs_case(n: usize, reverse: bool, separate: bool) -> Vec<String> {
 
 /// (8) `n` anchored slices pushed one after another (n zero-count anchors), a snapshot, drains.
 fn many_anchors_case(n: usize, snap: &str) -> Vec<String> {
-    let mut ops: Vec<String> = vec!["terse".into(), "new".into()];
+    let mut ops: Vec<String> = vec!["terse".into()];
+    if n > 600 {
+        // the list model needs more than a minute for 1024 anchored reads; harness only
+        ops.push("quiet".into());
+    }
+    ops.push("new".into());
     ops.push(format!("rep {} read_n v0 100 4 {} d100 ; push_aslice v0 s{{i}}", n, run_token(0x31, 104)));
     ops.push(format!("{} v0", snap));
     ops.push("push_copy v0 0102".into());
@@ -417,13 +427,13 @@ fn long_history_case(n: usize, kind: u64, quiet: bool) -> Vec<String> {
     match kind % 4 {
         0 => ops.push(format!("rep {} push_copy v0 {} ; consume v0 1", n, run_token(0x00, 100))),
         1 => ops.push(format!(
-            "rep {} register v0 0000 ; push_copy v0 {} ; backfill v0 b{{i}} {} ; consume v0 1 ; flush v0",
+            "rep {} register v0 0000 ; push_copy v0 {} ; must backfill v0 b{{i}} {} ; consume v0 1 ; flush v0",
             n,
             run_token(0x00, 50),
             run_token(0xf0, 2)
         )),
         2 => ops.push(format!(
-            "rep {} push_borrowed v0 {} ; register v0 00 ; consume v0 1 ; backfill v0 b{{i}} {} ; consume v0 1",
+            "rep {} push_borrowed v0 {} ; register v0 00 ; consume v0 1 ; must backfill v0 b{{i}} {} ; consume v0 1",
             n,
             run_token(0x00, 66),
             run_token(0x55, 1)
@@ -435,10 +445,29 @@ fn long_history_case(n: usize, kind: u64, quiet: bool) -> Vec<String> {
     ops.push("register v0 000000".into());
     ops.push("push_copy v0 0708".into());
     ops.push("clone v0".into());
-    ops.push(format!("backfill v0 b{} a1a2a3", if kind % 4 == 1 || kind % 4 == 2 { n } else { 0 }));
+    ops.push(format!("must backfill v0 b{} a1a2a3", if kind % 4 == 1 || kind % 4 == 2 { n } else { 0 }));
     ops.push("read v0 500".into());
     ops.push("read v1 500".into());
     ops
+}
+
+/// (9b) `n` slices pushed and consumed in two ops (the global slice index is past n at once), then
+/// placeholder rounds, a snapshot, reads.
+fn bulk_history_case(n: usize) -> Vec<String> {
+    vec![
+        "terse".into(),
+        "new".into(),
+        format!("extendrun v0 {} {}", n, run_token(0x10, 66)),
+        format!("consume v0 {}", n),
+        format!("rep 40 register v0 0000 ; push_copy v0 {} ; must backfill v0 b{{i}} {} ; consume v0 1", run_token(0x00, 50), run_token(0xf0, 2)),
+        format!("push_borrowed v0 {}", run_token(0x42, 80)),
+        "register v0 000000".into(),
+        "push_copy v0 0708".into(),
+        "clone v0".into(),
+        "must backfill v0 b40 a1a2a3".into(),
+        "read v0 500".into(),
+        "read v1 500".into(),
+    ]
 }
 
 const OWNERS: [&str; 8] = ["iov", "iovclone", "arena", "aslice", "enc", "dec", "reader", "chunker"];
@@ -485,7 +514,7 @@ impl ScaleIovecFamily {
             detached_case(mib, 0, 400, 1, 0),                // H
             exact_fit_case(mib, 0, true),                    // H
             snapshot_case(mib, 0, 1, 2, 1, 1, 1),
-            snapshot_case(mib, 0, 0, 0, 0, 0, 100),
+            snapshot_case(mib, 0, 0, 0, 2, 0, 100),
             zero_anchor_case(mib, 0, 65, 0, 2, true),
             big_offset_case(1 << 16, -1, 1, 0, 1 << 18, 0),
             big_offset_case(1 << 16, 0, 2, 1, 1 << 18, 1),
@@ -627,8 +656,15 @@ impl Family for ScaleIovecFamily {
             cases.push(long_history_case(if thorough { 4100 } else { 1100 }, kind, false));
         }
         if thorough {
-            for kind in 0..4u64 {
-                cases.push(long_history_case(66000, kind, true));
+            // harness only; the executor's shadow bookkeeping is quadratic in the number of placeholder
+            // rounds, so the 2^16 rounds are the placeholder-free kinds and the placeholder kinds stop at 2^14
+            cases.push(long_history_case(66000, 0, true));
+            cases.push(long_history_case(66000, 3, true));
+            cases.push(long_history_case(17000, 1, true));
+            cases.push(long_history_case(17000, 2, true));
+            // ... and the slice counters get past 2^16 in two ops before the placeholder rounds start
+            for n in [65536usize, 66000, 70000] {
+                cases.push(bulk_history_case(n));
             }
         }
         // ---- owners dropped by the unwinder of a caught panic
